@@ -140,6 +140,12 @@ package processorqueue
 //@   loop 2 modifies allof(Request.state), allof(Request.result), allof(Request.waitGroup), opall(Request.waitGroup)
 //@   loop 3 modifies nothing
 //@   loop 2 invariant[busy] forall(o, *Request, old(o.state) == requestProcessing ==> o.state == requestProcessing)
+//@   ghostlocal pos gmap[string]int
+//@   loop 1 do pos[requestID] = len(expiredRequestIDs) - 1
+//@   loop 1 invariant[expired-collected] len(expiredRequestIDs) >= 0 && forall(k, string, seen1[k] && watcher.requestsExpireAt[k].UnixNano() < old(now()) ==> 0 <= pos[k] && pos[k] < len(expiredRequestIDs) && expiredRequestIDs[pos[k]] == k)
+//@   loop 2 invariant[waiting-or-done] forall(o, *Request, old(o.state) == requestEnqueued ==> o.state == requestEnqueued || o.state == requestProcessed)
+//@   loop 2 invariant[collected-timed-out] forall(j, 0, idx2, in(expiredRequestIDs[j], watcher.requests) && old(watcher.requests[expiredRequestIDs[j]].state) == requestEnqueued ==> watcher.requests[expiredRequestIDs[j]].state == requestProcessed)
+//@   ensures[expired-waiters-get-their-verdict] forall(k, string, in(k, watcher.requestsExpireAt) && watcher.requestsExpireAt[k].UnixNano() < old(now()) && in(k, watcher.requests) && old(watcher.requests[k].state) == requestEnqueued ==> watcher.requests[k].state == requestProcessed)
 //@   ensures[expiry-index-untouched] forall(k, string, (in(k, watcher.requestsExpireAt) <==> old(in(k, watcher.requestsExpireAt))) && watcher.requestsExpireAt[k] == old(watcher.requestsExpireAt[k]))
 //@   ensures[watch-list-untouched] forall(k, string, (in(k, watcher.requests) <==> old(in(k, watcher.requests))) && watcher.requests[k] == old(watcher.requests[k]))
 //@   ensures[busy-requests-left-alone] forall(o, *Request, old(o.state) == requestProcessing ==> o.state == requestProcessing)
